@@ -61,12 +61,12 @@ def enc(cmd, ids):
     return ",".join("%d:%d" % word_info(w, ids) for w in ws)
 
 
-def run(args, env, stdin=b"", timeout=30):
+def run(args, env, stdin=b"", timeout=30, pass_fds=()):
     rec = tempfile.mktemp(dir=vlib.CACHE, prefix="rec")
     data = tempfile.mktemp(dir=vlib.CACHE, prefix="dat")
     e = {"PATH": stubs_dir() + ":/usr/bin:/bin", "STUB_RECORD": rec, "STUB_DATA": data}
     e.update(env)
-    rc, out, err = vlib.run_delta(["--no-gitconfig"] + list(args), stdin=stdin, env_extra=e, timeout=timeout)
+    rc, out, err = vlib.run_delta(["--no-gitconfig"] + list(args), stdin=stdin, env_extra=e, timeout=timeout, pass_fds=pass_fds)
     r = open(rec).read() if os.path.exists(rec) else ""
     d = open(data, "rb").read() if os.path.exists(data) else None
     for f in (rec, data):
@@ -83,7 +83,7 @@ def main(tier, replay=None):
         chk.oblige("build:delta-with-hooks", False, out[-2000:])
         return chk.finish()
     vlib.build_native()
-    vlib.standard_proof_obligations(chk, "PropC18")
+    vlib.standard_proof_obligations(chk, "PropC18", gen_names=("differ",))
     ok, out = vlib.build_vmodel()
     if not ok:
         chk.oblige("build:vmodel", False, out[-2000:])
@@ -218,6 +218,34 @@ def main(tier, replay=None):
             why.append(f"{kind}: the rendered output ({len(out)} bytes) is not the whole rendering ({len(plain)} bytes)")
         if why:
             chk.violation({"property": PID, "shape": "status", "why": "; ".join(why), "case": [kind, args, env, want], "stderr": err[-300:].decode("utf-8", "replace")})
+    # ---------------------------------------------------------------- B1: which differ is started (stub git / diff record their
+    #      command line), against the guard translated from the source (GenDiffer.v)
+    dmism = dn = 0
+    if not rp:
+        for maj, mnr, vs in ((2, 30, "2.30.0"), (2, 41, "2.41.9"), (2, 42, "2.42.0"), (2, 43, "2.43.1"), (3, 0, "3.0.0"), (1, 99, "1.99.0")):
+            for form in ("ff", "fp", "pf", "pp"):
+                fds, ops = [], []
+                for side, pth in zip(form, (fa, fb)):
+                    if side == "f":
+                        ops.append(pth)
+                    else:
+                        rfd, wfd = os.pipe()
+                        os.close(wfd)
+                        os.set_inheritable(rfd, True)
+                        fds.append(rfd)
+                        ops.append("/dev/fd/%d" % rfd)
+                rc, out, err, rec, data = run(["--paging", "never"] + ops, {"STUB_EXIT": "0", "STUB_GIT_VERSION": vs, "STUB_OUT_FILE": of}, pass_fds=tuple(fds))
+                for fd in fds:
+                    os.close(fd)
+                started = [l.split(" ", 1)[1].split("\x1f")[0] for l in rec.splitlines() if l.startswith("PRODUCER ")]
+                want = "git" if vm.ask("differ_use_git", maj, mnr, 1 if form[0] == "p" else 0, 1 if form[1] == "p" else 0) == "1" else "diff"
+                dn += 1
+                chk.count("differ:" + form)
+                if started[-1:] != [want]:
+                    dmism += 1
+                    if dmism <= 3:
+                        vlib.log(f"[C18] differ selection: git {vs} operands {form}: started {started}, model {want}")
+    chk.oblige("correspondence:differ-selection", dmism == 0, f"{dmism} of {dn} two-file calls start a differ other than the model's")
     # ---------------------------------------------------------------- B2: two files with the real differ (git / diff of the
     #      sandbox): operands as ordinary files or as /dev/fd/N (process substitution); status 0 and no output for equal
     #      contents, status 1 and the changed lines shown for different contents
